@@ -189,6 +189,10 @@ AUTH = [
     L("AUTH-ir", b"AUTH PLAIN AGFiAHB3\r\n", AUTH="ok", SASL="-!1!ok"),
     L("AUTH-ir-empty", b"AUTH PLAIN =\r\n", AUTH="ok", SASL="-!1!ok"),
     L("AUTH-fail", b"AUTH PLAIN AGFiAHB3\r\n", AUTH="ok", SASL="-!0!" + se(535, "5.7.8", b"Authentication failed")),
+    L("AUTH-fail-done", b"AUTH PLAIN AGFiAHB3\r\n", AUTH="ok", SASL="-!1!" + se(535, "5.7.8", b"Invalid credentials")),
+    L("AUTH-fail-done-plain", b"AUTH PLAIN AGFiAHB3\r\n", AUTH="ok", SASL="-!1!" + er(b"sasl: rejected")),
+    ("AUTH-2step-fail-done", lambda c, rng: (c.add(b"AUTH LOGIN\r\n", AUTH="ok", SASL=[hx(b"User:") + "!0!ok", "-!1!" + se(535, "5.7.8", b"no")]),
+                                             c.add(b"dXNlcg==\r\n"))),
     L("AUTH-badb64", b"AUTH PLAIN A===\r\n"),
     L("AUTH-unknown", b"AUTH NOPE\r\n", AUTH=se(504, "5.7.4", b"Unsupported authentication mechanism")),
     ("AUTH-2step", lambda c, rng: (c.add(b"auth login\r\n", AUTH="ok", SASL=[hx(b"User:") + "!0!ok", hx(b"\x00\xffPw") + "!0!ok", "-!1!ok"]),
